@@ -282,7 +282,7 @@ fn sweep(t: &mut Tape, full: bool) -> Scenario {
             scripted: Vec::new(),
             stall_pm: 0,
             stall_max_ns: 0,
-            addr_in_use_pm: 0,
+            addr_in_use_pm: 0, addr_in_use_from_round: 0,
             tick_base_ns: 50,
             tick_jitter_ns: 0,
         },
@@ -347,13 +347,53 @@ fn g_long(t: &mut Tape) -> Scenario {
     sc
 }
 
+/// C07, boundary walk: a TCP trace on a quiet path is first run as a pilot to learn how many
+/// sequence numbers each round consumes; the initial sequence is then chosen so that a
+/// chosen round starts exactly at a value next to the restart limit (65020..65027), and
+/// from that round on every bind collides, so that the round uses its whole budget of 512.
+fn g_wrap_aligned(t: &mut Tape) -> Scenario {
+    use crate::gen::executable_cells;
+    use crate::scenario::Proto;
+    let cells = executable_cells();
+    let tcp: Vec<usize> = cells.iter().enumerate().filter(|(_, c)| c.proto == Proto::Tcp).map(|(i, _)| i).collect();
+    let cell = tcp[t.pick(tcp.len())];
+    let v6 = t.chance(500);
+    let mut sc = fault_enum_base(cell as u32 * 2 + u32::from(v6));
+    let ms = 1_000_000u64;
+    sc.tracer.min_round_ns = ms / 2;
+    sc.tracer.max_round_ns = 2 * ms;
+    sc.tracer.grace_ns = ms / 10;
+    sc.tracer.read_timeout_ns = ms / 4;
+    sc.tracer.tcp_connect_timeout_ns = ms;
+    sc.tracer.max_ttl = 30;
+    sc.net.target.tcp_open = t.chance(500);
+    sc.light = true;
+    sc.stable = false;
+    // pilot: sequence numbers consumed before each round
+    let mut pilot = sc.clone();
+    pilot.tracer.rounds = 220;
+    pilot.tracer.initial_seq = 1000;
+    let rec = crate::run::run_scenario(pilot, Tape::from_seed(0x7769_6c6f), RunOpts { snapshots: false, clock_log: false });
+    let starts: Vec<usize> = std::iter::once(0).chain(rec.rounds.iter().map(|r| r.attempts_end)).collect();
+    let k = starts.iter().position(|c| *c >= 520).unwrap_or(starts.len() - 1);
+    let consumed = starts[k] as u32;
+    let target_start = 65_020 + t.draw(8);
+    let initial = target_start.saturating_sub(consumed).min(64_511);
+    sc.tracer.initial_seq = initial as u16;
+    sc.tracer.rounds = k as u32 + 3;
+    sc.faults.addr_in_use_pm = [1000u32, 1000, 950, 800][t.pick(4)];
+    sc.faults.addr_in_use_from_round = k as u32;
+    sc
+}
+
 /// Long runs across sequence wrap-arounds with adversarial deliveries: after a wrap the
 /// rounds start at the initial sequence again and slots of the round buffer may still hold
 /// probes of an older, longer round that started at the same sequence.
 fn g_inject_long(t: &mut Tape) -> Scenario {
     use crate::scenario::{Ports, Proto, Strat};
     let mut sc = g_long(t);
-    sc.tracer.rounds = 20 + t.skewed(220);
+    // enough rounds to come round to the initial sequence again (512 numbers away)
+    sc.tracer.rounds = if t.chance(600) { 90 + t.draw(160) } else { 20 + t.skewed(220) };
     // half of the runs in the regime that wraps every 512 numbers
     if t.chance(500) {
         sc.tracer.proto = Proto::Udp;
@@ -617,7 +657,7 @@ fn sweep_scenario(t: &mut Tape, wide: bool, tier: &str) -> Scenario {
             ecmp_salt: 7,
         },
         inject: InjectCfg::default(),
-        faults: FaultCfg { sock_pm: 0, sock_benign_pm: 0, scripted: Vec::new(), stall_pm: 0, stall_max_ns: 0, addr_in_use_pm: 0, tick_base_ns: 100, tick_jitter_ns: 0 },
+        faults: FaultCfg { sock_pm: 0, sock_benign_pm: 0, scripted: Vec::new(), stall_pm: 0, stall_max_ns: 0, addr_in_use_pm: 0, addr_in_use_from_round: 0, tick_base_ns: 100, tick_jitter_ns: 0 },
         stable: true,
         light: true,
         mutation: Some(Mutation { field, value, trunc }),
@@ -893,7 +933,7 @@ fn fault_enum_base(cfg: u32) -> Scenario {
             ecmp_salt: 7,
         },
         inject: InjectCfg::default(),
-        faults: FaultCfg { sock_pm: 0, sock_benign_pm: 0, scripted: Vec::new(), stall_pm: 0, stall_max_ns: 0, addr_in_use_pm: 0, tick_base_ns: 100, tick_jitter_ns: 0 },
+        faults: FaultCfg { sock_pm: 0, sock_benign_pm: 0, scripted: Vec::new(), stall_pm: 0, stall_max_ns: 0, addr_in_use_pm: 0, addr_in_use_from_round: 0, tick_base_ns: 100, tick_jitter_ns: 0 },
         stable: true,
         light: true,
         mutation: None,
@@ -1053,7 +1093,7 @@ pub fn registry() -> Vec<PropertyCheck> {
             families: vec![
                 Family { name: "inject", gen: g_inject, oracle: oracle::c03, opts: opts_full(), quick_runs: 150_000, thorough_runs: 6_000_000, must_reach: &["handed.NeverSent", "handed.Foreign", "handed.Replay", "handed.Duplicate", "handed.Unrelated"], enum_dims: None },
                 Family { name: "inject-quiet", gen: g_inject_quiet, oracle: oracle::c03, opts: opts_full(), quick_runs: 60_000, thorough_runs: 2_000_000, must_reach: &[], enum_dims: None },
-                Family { name: "inject-long", gen: g_inject_long, oracle: oracle::c03, opts: opts_full(), quick_runs: 6_000, thorough_runs: 200_000, must_reach: &["handed.NeverSent"], enum_dims: None },
+                Family { name: "inject-long", gen: g_inject_long, oracle: oracle::c03, opts: opts_full(), quick_runs: 5_000, thorough_runs: 200_000, must_reach: &["handed.NeverSent"], enum_dims: None },
                 Family { name: "second-tracer", gen: g_neighbour, oracle: oracle::c03_neighbour, opts: opts_full(), quick_runs: 40_000, thorough_runs: 1_500_000, must_reach: &["reach.neighbour_datagram"], enum_dims: None },
                 Family { name: "second-tracer-quiet", gen: g_neighbour_quiet, oracle: oracle::c03_neighbour, opts: opts_full(), quick_runs: 30_000, thorough_runs: 1_000_000, must_reach: &["reach.neighbour_datagram"], enum_dims: None },
             ],
@@ -1062,8 +1102,9 @@ pub fn registry() -> Vec<PropertyCheck> {
         PropertyCheck {
             id: "C07",
             level: "exploration",
-            rule: "long seeded runs (50..1500 short rounds) from boundary and random initial sequences, both maximum-sequence regimes, TCP port-collision storms up to every bind failing; sequence arithmetic monitor over every send attempt plus re-delivery of all previous-round responses; non-trivial/distinct as for C01",
+            rule: "long seeded runs (50..1500 short rounds) from boundary and random initial sequences, both maximum-sequence regimes, TCP port-collision storms up to every bind failing; sequence arithmetic monitor over every send attempt plus re-delivery of all previous-round responses; a boundary walk aligns a round start with each value next to the restart limit (pilot run, then initial sequence chosen accordingly) and lets that round use its whole budget; non-trivial/distinct as for C01",
             families: vec![
+                Family { name: "wrap-aligned-storm", gen: g_wrap_aligned, oracle: oracle::c07, opts: opts_light(), quick_runs: 2_000, thorough_runs: 40_000, must_reach: &[], enum_dims: None },
                 Family { name: "long-runs", gen: g_long, oracle: oracle::c07, opts: opts_light(), quick_runs: 6_000, thorough_runs: 300_000, must_reach: &[], enum_dims: None },
                 Family { name: "socket-faults", gen: g_sockfaults, oracle: oracle::c07, opts: opts_light(), quick_runs: 40_000, thorough_runs: 1_500_000, must_reach: &[], enum_dims: None },
             ],
@@ -1175,6 +1216,7 @@ pub fn registry() -> Vec<PropertyCheck> {
                 Family { name: "swarm", gen: g_base, oracle: oracle::c10, opts: opts_full(), quick_runs: 120_000, thorough_runs: 5_000_000, must_reach: &[], enum_dims: None },
                 Family { name: "fault-free", gen: g_quiet, oracle: oracle::c10, opts: opts_full(), quick_runs: 40_000, thorough_runs: 1_500_000, must_reach: &[], enum_dims: None },
                 Family { name: "quiet-route-change", gen: g_quiet_change, oracle: oracle::c10, opts: opts_full(), quick_runs: 60_000, thorough_runs: 2_000_000, must_reach: &["fault.route_change"], enum_dims: None },
+                Family { name: "socket-faults", gen: g_sockfaults, oracle: oracle::c10, opts: opts_full(), quick_runs: 40_000, thorough_runs: 1_500_000, must_reach: &[], enum_dims: None },
                 Family { name: "synthetic-rounds", gen: g_synth, oracle: oracle::c10, opts: opts_full(), quick_runs: 20_000, thorough_runs: 600_000, must_reach: &["reach.synthetic_round"], enum_dims: None },
             ],
             assumptions: vec![ASSUME_SIM, ASSUME_CLOCK],
